@@ -461,24 +461,35 @@ package graph
 //@     && forall(x, any, imp(in(x, dvisited) && !old(in(x, dvisited)) && x != v, in(x, reported) && descends(cb, g.hash[x])))
 //@     && forall(y, any, imp(in(y, reported) && !old(in(y, reported)) && descends(cb, g.hash[y]), in(y, dvisited)))
 
+// what a callback invoked on w guarantees when it descended and returned nil: the effect of dfs(w),
+// except that w itself was reported by this very invocation (its visited predecessor is the caller's vertex)
+//@ ghost dfsPostCb(g *Graph, cb DFSFunc, v any) bool =
+//@     forall(k, any, imp(old(in(k, dvisited)), in(k, dvisited))) && in(v, dvisited)
+//@     && forall(k, any, imp(old(in(k, reported)), in(k, reported)))
+//@     && forall(x, any, y, any, imp(in(x, dvisited) && !old(in(x, dvisited)) && edge(g, x, y), in(y, dvisited) || (in(y, reported) && !descends(cb, g.hash[y]))))
+//@     && forall(y, any, imp(in(y, reported) && !old(in(y, reported)) && y != v, exists(x, any, in(x, dvisited) && !old(in(x, dvisited)) && edge(g, x, y))))
+//@     && forall(x, any, imp(in(x, dvisited) && !old(in(x, dvisited)) && x != v, in(x, reported) && descends(cb, g.hash[x])))
+//@     && forall(y, any, imp(in(y, reported) && !old(in(y, reported)) && descends(cb, g.hash[y]), in(y, dvisited)))
+
+
 // The callback type. Assumed for arbitrary callbacks (T5: a callback touches no
 // traversal state except by calling next at most once, and it calls next iff
 // descends(self, v)); VERIFIED for the one real callback in argmapper.callGraph.
 //@ extern type:graph.DFSFunc :: (v Vertex, next func() error) error
-//@   requires [next-is-dfs-closure] fncode(next) == litcode("graph.(*Graph).dfs$1")
+//@   requires [next-is-dfs-closure] next != nil && fncode(next) == litcode("graph.(*Graph).dfs$1")
 //@   requires [once] !in(captured(next, "graph.(*Graph).dfs$1", "w"), dvisited)
 //@   requires captured(next, "graph.(*Graph).dfs$1", "g") != nil && wf0(captured(next, "graph.(*Graph).dfs$1", "g")) && captured(next, "graph.(*Graph).dfs$1", "visited") != nil
 //@   requires dom(captured(next, "graph.(*Graph).dfs$1", "visited")) == dvisited && captured(next, "graph.(*Graph).dfs$1", "cb") == self
-//@   requires v == captured(next, "graph.(*Graph).dfs$1", "g").hash[captured(next, "graph.(*Graph).dfs$1", "w")]
+//@   requires [shown-a-vertex] v == captured(next, "graph.(*Graph).dfs$1", "g").hash[captured(next, "graph.(*Graph).dfs$1", "w")] && has(captured(next, "graph.(*Graph).dfs$1", "g").hash, captured(next, "graph.(*Graph).dfs$1", "w"))
 //@   requires [own-set-apart] captured(next, "graph.(*Graph).dfs$1", "visited") != cbset(self) && (cbset(self) == nil || allocated(cbset(self)))
 //@   ensures  in(captured(next, "graph.(*Graph).dfs$1", "w"), reported) && forall(k, any, imp(old(in(k, reported)), in(k, reported))) && forall(k, any, imp(old(in(k, dvisited)), in(k, dvisited)))
-//@   ensures  imp(result == nil && descends(self, v), dfsPost(captured(next, "graph.(*Graph).dfs$1", "g"), self, captured(next, "graph.(*Graph).dfs$1", "w")))
+//@   ensures  imp(result == nil && descends(self, v), dfsPostCb(captured(next, "graph.(*Graph).dfs$1", "g"), self, captured(next, "graph.(*Graph).dfs$1", "w")))
 //@   ensures  imp(!descends(self, v), dvisited == old(dvisited) && reported == add(old(reported), captured(next, "graph.(*Graph).dfs$1", "w")))
 //@   ensures  dom(captured(next, "graph.(*Graph).dfs$1", "visited")) == dvisited
 //@   ensures  graphKept()
 //@   ensures  [sets-only-grow] forall(m, VisitM, k, any, imp(old(allocated(m)) && old(has(m, k)), has(m, k)))
 //@   ensures  [reported-recorded] imp(cbset(self) != nil, forall(k, any, imp(in(k, reported) && !old(in(k, reported)), has(cbset(self), k))))
-//@   ensures  [only-reported-recorded] imp(cbset(self) != nil, forall(k, any, imp(has(cbset(self), k) && !old(has(cbset(self), k)), in(k, reported) && !old(in(k, reported)))))
+//@   ensures  [only-reported-recorded] imp(cbset(self) != nil, forall(k, any, imp(has(cbset(self), k) && !old(has(cbset(self), k)), in(k, reported))))
 //@   ensures  [never-fails] imp(neverFails(self), result == nil)
 //@   assigns  VisitM, reported, dvisited
 
@@ -489,7 +500,7 @@ package graph
 //@   ensures  forall(k, any, imp(old(in(k, reported)), in(k, reported))) && forall(k, any, imp(old(in(k, dvisited)), in(k, dvisited)))
 //@   ensures  [sets-only-grow] forall(m, VisitM, k, any, imp(old(allocated(m)) && old(has(m, k)), has(m, k)))
 //@   ensures  [reported-recorded] imp(cbset(cb) != nil, forall(k, any, imp(in(k, reported) && !old(in(k, reported)), has(cbset(cb), k))))
-//@   ensures  [only-reported-recorded] imp(cbset(cb) != nil, forall(k, any, imp(has(cbset(cb), k) && !old(has(cbset(cb), k)), in(k, reported) && !old(in(k, reported)))))
+//@   ensures  [only-reported-recorded] imp(cbset(cb) != nil, forall(k, any, imp(has(cbset(cb), k) && !old(has(cbset(cb), k)), in(k, reported))))
 //@   ensures  [never-fails] imp(neverFails(cb), result == nil)
 //@   assigns  VisitM, reported, dvisited
 
@@ -501,12 +512,12 @@ package graph
 //@   ensures  [monotone] forall(k, any, imp(old(in(k, reported)), in(k, reported))) && forall(k, any, imp(old(in(k, dvisited)), in(k, dvisited)))
 //@   ensures  [sets-only-grow] forall(m, VisitM, k, any, imp(old(allocated(m)) && old(has(m, k)), has(m, k)))
 //@   ensures  [reported-recorded] imp(cbset(cb) != nil, forall(k, any, imp(in(k, reported) && !old(in(k, reported)), has(cbset(cb), k))))
-//@   ensures  [only-reported-recorded] imp(cbset(cb) != nil, forall(k, any, imp(has(cbset(cb), k) && !old(has(cbset(cb), k)), in(k, reported) && !old(in(k, reported)))))
+//@   ensures  [only-reported-recorded] imp(cbset(cb) != nil, forall(k, any, imp(has(cbset(cb), k) && !old(has(cbset(cb), k)), in(k, reported))))
 //@   ensures  [never-fails] imp(neverFails(cb), result == nil)
 //@   assigns  VisitM, reported, dvisited
 //@   after "visited[v] = struct{}{}" set dvisited = add(dvisited, v)
 //@   loop 1 invariant [reported-recorded] imp(cbset(cb) != nil, forall(k, any, imp(in(k, reported) && !old(in(k, reported)), has(cbset(cb), k))))
-//@   loop 1 invariant [only-reported-recorded] imp(cbset(cb) != nil, forall(k, any, imp(has(cbset(cb), k) && !old(has(cbset(cb), k)), in(k, reported) && !old(in(k, reported)))))
+//@   loop 1 invariant [only-reported-recorded] imp(cbset(cb) != nil, forall(k, any, imp(has(cbset(cb), k) && !old(has(cbset(cb), k)), in(k, reported))))
 //@   loop 1 invariant [descended] forall(y, any, imp(in(y, reported) && !old(in(y, reported)) && descends(cb, g.hash[y]), in(y, dvisited)))
 //@   loop 1 invariant [sets-only-grow] forall(m, VisitM, k, any, imp(old(allocated(m)) && old(has(m, k)), has(m, k)))
 //@   loop 1 invariant graphKept() && dom(visited) == dvisited && rmap1 == g.adjacencyOut[v]
@@ -528,7 +539,7 @@ package graph
 //@   ensures  [monotone] forall(k, any, imp(old(in(k, reported)), in(k, reported)))
 //@   ensures  [sets-only-grow] forall(m, VisitM, k, any, imp(old(allocated(m)) && old(has(m, k)), has(m, k)))
 //@   ensures  [reported-recorded] imp(cbset(cb) != nil, forall(k, any, imp(in(k, reported) && !old(in(k, reported)), has(cbset(cb), k))))
-//@   ensures  [only-reported-recorded] imp(cbset(cb) != nil, forall(k, any, imp(has(cbset(cb), k) && !old(has(cbset(cb), k)), in(k, reported) && !old(in(k, reported)))))
+//@   ensures  [only-reported-recorded] imp(cbset(cb) != nil, forall(k, any, imp(has(cbset(cb), k) && !old(has(cbset(cb), k)), in(k, reported))))
 //@   ensures  [never-fails] imp(neverFails(cb), result == nil)
 //@   assigns  VisitM, reported, dvisited
 //@   before "return g.dfs(" set dvisited = emptyset(any)
